@@ -48,6 +48,8 @@ impl Check for AsyncCheck {
                 let simpler = match &case.tasks[t].ops[k] {
                     AOp::ReadHold(n) if *n > 0 => Some(AOp::ReadHold(n - 1)),
                     AOp::WriteHold(n, x) if *n > 0 => Some(AOp::WriteHold(n - 1, *x)),
+                    AOp::WriteHoldNoop(n, c) if *n > 0 => Some(AOp::WriteHoldNoop(n - 1, *c)),
+                    AOp::WriteHoldNoop(0, true) => Some(AOp::WriteHoldNoop(0, false)),
                     AOp::NextRefHold(n) if *n > 0 => Some(AOp::NextRefHold(n - 1)),
                     AOp::NextRefHold(0) => Some(AOp::Next),
                     AOp::NextCancel(n) if *n > 1 => Some(AOp::NextCancel(n - 1)),
